@@ -266,6 +266,8 @@ def check_mass(desc):
     Vb, Eb = np.asarray(bg.vertices), np.asarray(bg.elements).astype(int)
     lp, w = refnum.tri_rule(3)
     R = np.zeros((tst.global_dof_count, dom.global_dof_count))
+    Gt = np.zeros(tst.global_dof_count)  # squared L2 norms of the basis functions (natural scale of the entries, Cauchy-Schwarz)
+    Gd = np.zeros(dom.global_dof_count)
     for b in range(Eb.shape[1]):
         x = refnum.map_points(Vb, Eb, b, lp)
         ie = np.linalg.norm(np.cross(Vb[:, Eb[1, b]] - Vb[:, Eb[0, b]], Vb[:, Eb[2, b]] - Vb[:, Eb[0, b]]))
@@ -274,9 +276,13 @@ def check_mass(desc):
             continue
         bd = _basis_on_bary(dom, g, bg, b, x, lp)
         for i, vi in bt.items():
+            Gt[i] += ie * np.sum(w * np.sum(vi * vi, axis=0))
             for j, vj in bd.items():
                 R[i, j] += ie * np.sum(w * np.sum(vi * vj, axis=0))
-    scale = max(np.max(np.abs(R)), 1e-300)
+        for j, vj in bd.items():
+            Gd[j] += ie * np.sum(w * np.sum(vj * vj, axis=0))
+    # pairings such as <f, n x f> vanish identically: the floor is 1e-4 of the Cauchy-Schwarz bound, not of the (zero) matrix itself
+    scale = max(np.max(np.abs(R)), 1e-4 * np.sqrt(max(np.max(Gt), 1e-300) * max(np.max(Gd), 1e-300)), 1e-300)
     err = np.max(np.abs(A - R)) / scale
     if A.shape != R.shape or err > 1e-10:
         i, j = np.unravel_index(np.argmax(np.abs(A - R)), A.shape)
